@@ -70,6 +70,12 @@ def initACast (cfg : Cfg) (target : VT) (p : CE) : CE :=
       else (if p.ty.signed then .un .msb p.il else .bfalse)
     { il := .cast target.width fill p.il, ty := target, kind := .plain }
 
+/-- the `ite_cast` arm of `init_a_cast` on its own: `mem_store` compares its Token-typed width with an `int`
+    width, so a BOOL-grouped operand always takes this arm there, whatever its width -/
+def boolToInt (cfg : Cfg) (target : VT) (p : CE) : CE :=
+  let c := if cfg.condByObjectKind then condILk p else p.il
+  { il := .ite c (numberIL target 1) (numberIL target 0), ty := target, kind := .plain }
+
 def promotionCast (cfg : Cfg) (p : CE) : CE :=
   let pt := VT.promoted p.ty
   if pt.eqv p.ty then p else initACast cfg pt p
@@ -235,6 +241,9 @@ def compileExpr (env : CEnv) : CExpr → Except String CE
       let fill : ILPure := if env.cfg.castFillNeedsBothSigned then (if t.signed && s then .un .msb ld.il else .bfalse)
                            else (if s then .un .msb ld.il else .bfalse)
       .ok { il := .cast t.width fill ld.il, ty := t.toVT, kind := .plain }
+  | .post _ _ _ => .error "hybrid: use CompileH"
+  | .call _ _ _ _ => .error "hybrid: use CompileH"
+  | .stmtexpr _ _ _ => .error "hybrid: use CompileH"
 def compileArgs (env : CEnv) : List CExpr → List CT → Except String (List ILPure)
   | [], _ => .ok []
   | _ :: _, [] => .error "macro arity"
@@ -352,7 +361,7 @@ def compileStmt (env : CEnv) (st : TSt) : CStmt → Except String (ILEffect × T
       let target : VT := { signed := false, width := w, group := 1 }
       -- Token-typed width: `operation_value_type != data.value_type` always holds and so does the inner test
       let data : CE :=
-        if ce.ty.hasFlag VT.gBOOL then initACast env.cfg target ce
+        if ce.ty.hasFlag VT.gBOOL then (if target.eqv ce.ty then boolToInt env.cfg target ce else initACast env.cfg target ce)
         else { il := .cast w (if env.cfg.castFillNeedsBothSigned then .bfalse else (if ce.ty.signed then .un .msb ce.il else .bfalse)) ce.il,
                ty := target, kind := .plain }
       .ok (.storew (.varl "EA") data.il, st)
@@ -389,6 +398,8 @@ def compileStmt (env : CEnv) (st : TSt) : CStmt → Except String (ILEffect × T
       let ce ← compileExpr env e
       let ta := if ce.ty.width != 32 then initACast env.cfg { signed := false, width := 32, group := 1 } ce else ce
       .ok (.seqn [.setl "jump_flag" .btrue, .setl "jump_target" ta.il], st)
+  | .exprstmt _ => .error "hybrid: use CompileH"
+  | .ret _ => .error "hybrid: use CompileH"
   | .skip w =>
       if w == "cancel_slot;" then .ok (.nop, st)
       else if w == "STORE_SLOT_CANCELLED(pkt, slot);" then
